@@ -1740,6 +1740,71 @@ fn gen_rdbig(rng: &mut Rng, w: &mut CaseWriter, n: usize) {
     }
 }
 
+/// kind rc: a stream (built without noodles; empty members, markers in the middle, damaged frames,
+/// truncation) pulled by a SEQUENCE of read(buf_len) calls whose buffer lengths mix sizes below and
+/// around 65536, continuing after errors: per call result + position + virtual position must equal
+/// the call-by-call reader model (NV.Bgzf.ReaderCalls.read_gen, direct path included).
+fn gen_rc(rng: &mut Rng, w: &mut CaseWriter, n: usize) {
+    for i in 0..n {
+        let nblocks = rng.range(0, 4) as usize;
+        let mut s = Vec::new();
+        let mut starts = Vec::new();
+        for _ in 0..nblocks {
+            if rng.chance(1, 3) {
+                let k = rng.range(1, 3);
+                for _ in 0..k {
+                    starts.push(s.len());
+                    if rng.chance(1, 2) {
+                        s.extend(gz::EOF_BLOCK);
+                    } else {
+                        s.extend(make_frame(&[1, 0, 0, 0xff, 0xff], &[]));
+                    }
+                }
+            }
+            let len = *rng.pick(&[1usize, 100, 3000, 65495, 65536]);
+            let class = if len > 5000 { *rng.pick(&[0u64, 1]) } else { rng.below(3) };
+            let b = payload(rng, class, len);
+            let l = *rng.pick(&[0u8, 1, 6]);
+            let cd = flate2_deflate(l, &b);
+            if cd.len() > MAX_CDATA {
+                continue;
+            }
+            starts.push(s.len());
+            s.extend(make_frame(&cd, &b));
+        }
+        match i % 4 {
+            1 => s.extend(gz::EOF_BLOCK),
+            2 => {
+                let k = rng.range(1, 17) as usize;
+                s.extend(rng.bytes(k));
+            }
+            _ => {}
+        }
+        // damage: header byte, trailer byte (CRC / ISIZE), cdata byte, BSIZE, truncation
+        if !s.is_empty() && i % 2 == 1 && !starts.is_empty() {
+            let st = *rng.pick(&starts);
+            let bsz = u16::from_le_bytes([s[st + 16], s[st + 17]]) as usize + 1;
+            match rng.below(5) {
+                0 => { let o = st + rng.below(16) as usize; s[o] ^= 1 << rng.below(8); }
+                1 => { let o = st + bsz - 1 - rng.below(8) as usize; s[o] ^= 1 << rng.below(8); }
+                2 => { let o = st + 18 + rng.below((bsz - 26) as u64) as usize; s[o] ^= 1 << rng.below(8); }
+                3 => { s[st + 16] = rng.below(30) as u8; s[st + 17] = 0; }
+                _ => { let k = rng.below(s.len() as u64) as usize; s.truncate(k); }
+            }
+        }
+        let ncalls = rng.range(2, 9) as usize;
+        let mut lens = Vec::new();
+        for _ in 0..ncalls {
+            lens.push(*rng.pick(&[0usize, 1, 100, 3000, 65494, 65495, 65535, 65536, 65536, 65537, 70000, 131072]));
+        }
+        // always end by draining with large buffers
+        lens.push(65536);
+        lens.push(65536);
+        let ls: Vec<String> = lens.iter().map(|x| x.to_string()).collect();
+        w.push("rc", vec![hex(&s), ls.join(",")]);
+    }
+}
+
 fn generate(rng: &mut Rng, tier: &str, w: &mut CaseWriter) {
     let thorough = tier == "thorough";
     let mul = if thorough { 8 } else { 1 };
@@ -1811,6 +1876,7 @@ fn generate(rng: &mut Rng, tier: &str, w: &mut CaseWriter) {
     gen_rd(rng, w, 60 * mul as usize);
     gen_rd_cdata(rng, w, 200 * mul as usize);
     gen_rdbig(rng, w, 30 * mul as usize);
+    gen_rc(rng, w, 40 * mul as usize);
     gen_inf(rng, w, 200 * mul as usize);
     gen_st(rng, w, thorough);
     gen_fx(rng, w, 40 * mul as usize);
@@ -1956,6 +2022,30 @@ fn run_rdbig(c: &Case) -> Obs {
     }
 }
 
+fn run_rc(c: &Case) -> Obs {
+    let s = c.b(0);
+    let lens: Vec<usize> = c.args[1].split(',').map(|x| x.parse().unwrap()).collect();
+    let r = guarded(AssertUnwindSafe(|| -> String {
+        let mut rd = bgzf::io::Reader::new(std::io::Cursor::new(&s[..]));
+        let mut parts = Vec::new();
+        for &n in &lens {
+            let mut buf = vec![0xa5u8; n];
+            let r = match rd.read(&mut buf) {
+                Ok(k) if k <= n => format!("Ok:{}", hex(&buf[..k])),
+                Ok(k) => format!("Ok-overlong:{k}"),
+                Err(e) => format!("Err:{}", errkind(&e)),
+            };
+            let vp = rd.virtual_position();
+            parts.push(format!("{r}@{}/{}.{}", rd.position(), vp.compressed(), vp.uncompressed()));
+        }
+        parts.join(";")
+    }));
+    match r {
+        Outcome::Done(obs) => Obs::ok(obs, false),
+        Outcome::Panicked(m) => Obs::fail("Panic", "read-calls-panic", m),
+    }
+}
+
 fn run_st(c: &Case) -> Obs {
     let x = c.b(0);
     let cd = flate2_deflate(0, &x);
@@ -2080,6 +2170,7 @@ fn run(c: &Case) -> Obs {
         "ms" => run_ms(c),
         "rd" => run_rd(c),
         "rdbig" => run_rdbig(c),
+        "rc" => run_rc(c),
         _ => Obs {
             obs: "-".into(),
             verdict: "skip".into(),
